@@ -266,7 +266,50 @@ func eq(a, b string) string {
 	return "(= " + a + " " + b + ")"
 }
 
-func sel(a, i string) string      { return "(select " + a + " " + i + ")" }
+// sel builds (select a i), simplifying select-of-store at the syntactically same index.
+func sel(a, i string) string {
+	if strings.HasPrefix(a, "(store ") {
+		if args := splitSExprArgs(a[len("(store ") : len(a)-1]); len(args) == 3 && args[1] == i {
+			return args[2]
+		}
+	}
+	return "(select " + a + " " + i + ")"
+}
+
+// splitSExprArgs splits "x (f y) z" into its top-level s-expressions.
+func splitSExprArgs(s string) []string {
+	var out []string
+	d, start := 0, -1
+	for i := 0; i < len(s); i++ {
+		c := s[i]
+		switch {
+		case c == '(':
+			if d == 0 && start < 0 {
+				start = i
+			}
+			d++
+		case c == ')':
+			d--
+			if d == 0 && start >= 0 {
+				out = append(out, s[start:i+1])
+				start = -1
+			}
+		case c == ' ' || c == '\n' || c == '\t':
+			if d == 0 && start >= 0 {
+				out = append(out, s[start:i])
+				start = -1
+			}
+		default:
+			if d == 0 && start < 0 {
+				start = i
+			}
+		}
+	}
+	if start >= 0 {
+		out = append(out, s[start:])
+	}
+	return out
+}
 func store(a, i, v string) string { return "(store " + a + " " + i + " " + v + ")" }
 
 func intLit(n int64) string {
